@@ -55,6 +55,8 @@ type FnCtx struct {
 	used       map[string]bool
 	entryVals  map[*ssa.Parameter]Val
 	entryTerms []entryTerm
+	loopUnkPkgs    []*types.Package
+	loopUnkFuncArg bool
 	entryFrees map[*ssa.FreeVar]Val
 }
 
@@ -210,8 +212,12 @@ func (s *State) heapSet(key, sort, term string) {
 func (s *State) havocAll(reason string) {
 	s.c.eng.epochCtr++
 	s.epoch = s.c.eng.epochCtr
-	s.heap = map[string]string{}
-	s.havocs = append(append([]havocRec(nil), s.havocs...), havocRec{"", s.epoch})
+	for k := range s.heap {
+		if !s.c.eng.immutableKey(k) {
+			delete(s.heap, k)
+		}
+	}
+	s.havocs = append(append([]havocRec(nil), s.havocs...), havocRec{"", s.epoch, s.c.eng.immutableKey})
 	na := s.c.freshConst("alloc", sInt)
 	s.assume(app("<=", s.alloc, na))
 	s.alloc = na
@@ -223,11 +229,72 @@ func (s *State) havocAll(reason string) {
 func (s *State) rootEpoch(key string) int {
 	e := 0
 	for _, h := range s.havocs {
-		if strings.HasPrefix(key, h.prefix) {
+		if strings.HasPrefix(key, h.prefix) && !(h.keep != nil && h.keep(key)) {
 			e = h.epoch
 		}
 	}
 	return e
+}
+
+// havocCall forgets everything a call into the given packages may have written: the whole heap except
+// unexported fields of struct types declared in packages that the callee cannot reach (no import path,
+// no callbacks) -- Go's package-level encapsulation makes those unwritable from there.
+func (s *State) havocCall(reason string, pkgs []*types.Package, funcArg bool) {
+	eng := s.c.eng
+	keep := func(key string) bool {
+		if eng.immutableKey(key) {
+			return true
+		}
+		if funcArg {
+			return false
+		}
+		info, ok := eng.keyInfo[fldPrefixOf(key)]
+		if !ok || !info.private || info.pkg == nil {
+			return false
+		}
+		if !eng.callbackFree(info.pkg) {
+			return false
+		}
+		for _, q := range pkgs {
+			if q == nil || eng.reaches(q, info.pkg) {
+				return false
+			}
+		}
+		return true
+	}
+	eng.epochCtr++
+	s.epoch = eng.epochCtr
+	kept := 0
+	for k := range s.heap {
+		if keep(k) {
+			kept++
+			continue
+		}
+		delete(s.heap, k)
+	}
+	s.havocs = append(append([]havocRec(nil), s.havocs...), havocRec{"", s.epoch, keep})
+	na := s.c.freshConst("alloc", sInt)
+	s.assume(app("<=", s.alloc, na))
+	s.alloc = na
+	if reason != "" {
+		s.c.assumed["havoc: "+reason+" (unexported fields of packages the callee cannot reach are kept)"] = true
+	}
+}
+
+func fldPrefixOf(key string) string {
+	if !strings.HasPrefix(key, "fld|") {
+		return ""
+	}
+	// fld|Type|field[.suffix]
+	parts := strings.SplitN(key, "|", 3)
+	if len(parts) < 3 {
+		return ""
+	}
+	f := parts[2]
+	if i := strings.Index(f, "."); i >= 0 {
+		f = f[:i]
+	}
+	return "fld|" + parts[1] + "|" + f
 }
 
 func fieldName(st *types.Struct, i int) string {
@@ -236,7 +303,12 @@ func fieldName(st *types.Struct, i int) string {
 
 func (s *State) fldKey(structT types.Type, field int, suffix string) string {
 	st := structT.Underlying().(*types.Struct)
-	return "fld|" + typeKey(structT) + "|" + fieldName(st, field) + suffix
+	base := "fld|" + typeKey(structT) + "|" + fieldName(st, field)
+	if _, ok := s.c.eng.keyInfo[base]; !ok {
+		f := st.Field(field)
+		s.c.eng.keyInfo[base] = keyInfo{pkg: f.Pkg(), private: !f.Exported() && f.Pkg() != nil}
+	}
+	return base + suffix
 }
 
 func elemKey(elemT types.Type, path []int, suffix string) string {
@@ -273,14 +345,14 @@ func (s *State) refFacts(c comp, term string) {
 		switch kindOf(c.T) {
 		case kPtr, kMap, kChan:
 			s.assume(and(app("<=", "0", term), app("<", term, s.alloc)))
+		case kStr:
+			s.strBasics(term)
 		case kInt:
 			if isUnsigned(c.T) {
 				s.assume(app("<=", "0", term))
 			}
-			if s.c.checked {
-				lo, hi := intRange(c.T)
-				s.assume(and(app("<=", lo, term), app("<=", term, hi)))
-			}
+			lo, hi := intRange(c.T)
+			s.assume(and(app("<=", lo, term), app("<=", term, hi)))
 		}
 	}
 }
